@@ -669,6 +669,12 @@ func stmtStr(s ast.Stmt) string {
 		return exprStr(t.X) + t.Tok.String()
 	case *ast.ExprStmt:
 		return exprStr(t.X)
+	case *ast.ReturnStmt:
+		var r []string
+		for _, e := range t.Results {
+			r = append(r, exprStr(e))
+		}
+		return "return " + strings.Join(r, ", ")
 	}
 	return fmt.Sprintf("%T", s)
 }
